@@ -2075,7 +2075,13 @@ def explore(fn, max_paths=2000, timeout_ms=10000, linearize=True, maxcases=8, al
                     r = c.check(want_model=True, noslice=True)
                     pr.obligations.append((name, 'sat-concrete', _model_inputs(c, c.model) if r == z3.sat else None))
             if nwit < witness_paths:
-                r = c.check(want_model=True, noslice=True)
+                # prefer a GENERIC witness: real inputs non-zero and pairwise distinct in magnitude (a model full of zeros
+                # and coinciding values hides most errors in the concrete replay); fall back to any model
+                reals = [z for z in c.inputs.values() if z.sort() == z3.RealSort()][:40]
+                generic = [z != 0 for z in reals] + [z3.And(a != b, a != -b) for i, a in enumerate(reals) for b in reals[i + 1:i + 4]]
+                r = c.check(*generic, want_model=True, noslice=True, timeout_ms=min(c.timeout_ms, 5000)) if generic else z3.unknown
+                if r != z3.sat:
+                    r = c.check(want_model=True, noslice=True)
                 if r == z3.sat:
                     pr.witness = _model_inputs(c, c.model); nwit += 1
         work.extend(c.worklist)
